@@ -109,8 +109,23 @@ func (t *tcpTransport) SetEncryption(ctx context.Context, e SessionEncryption) e
 		return err
 	}
 
+	// The handshake only knows about deadlines: let a cancellation interrupt it too,
+	// otherwise it would hold the caller for up to the 30 seconds above.
+	handshakeDone := make(chan struct{})
+	defer close(handshakeDone)
+	go func() {
+		select {
+		case <-ctx.Done():
+			_ = tlsConn.SetDeadline(time.Now())
+		case <-handshakeDone:
+		}
+	}()
+
 	// We convert existing connection to TLS
 	if err := tlsConn.Handshake(); err != nil {
+		if ctx.Err() != nil {
+			return fmt.Errorf("%v: %w", err, ctx.Err())
+		}
 		return err
 	}
 
